@@ -4,7 +4,8 @@
    sort.Sort calls before GenerateMainfile; mage/template.go: `range .Aliases`).
 
    Definitions only.  Every iteration over a Go hash map is an ADVERSARY:
-   - the ast.Package.Files map: the list [in_files] IS the order in which a `range` visits it;
+   - the ast.Package.Files map: the list [in_files] IS the order in which a `range` visits it
+     (go/doc, which also reads it, sorts the file names first);
    - the importNames set (getNamedImports) and the Aliases map (ranged by text/template): the map is
      an association list and the order of a `range` over it is given by the functions
      [in_range_names] / [in_range_aliases] of the inputs (any function returning a permutation);
@@ -85,7 +86,9 @@ Definition local_target_name (p : pfunc) : string := target_name (local_func p).
    alias "" is a root import *)
 Record ispec := { sp_path : string; sp_alias : string }.
 (* one file of the package: its tagged import specs in source order *)
-Record file := { f_name : string; f_specs : list ispec }.
+Record file := { f_name : string;
+                 f_doc : option string;      (* ast.File.Doc.Text() of the package comment, None = no comment *)
+                 f_specs : list ispec }.
 
 (* parse.Import *)
 Record import := { i_alias : string; i_name : string; i_uname : string; i_path : string; i_funcs : list func }.
@@ -107,8 +110,50 @@ Record inputs := {
 }.
 
 (* mainfileTemplateData, as far as it depends on the package *)
-Record tdata := { td_funcs : list func; td_default : option func;
+Record tdata := { td_desc : string; td_funcs : list func; td_default : option func;
                   td_aliases : list (string * func); td_imports : list import }.
+
+(* ---------------------------------------------------------------- Package(): Description
+   Description: toOneLine(p.Doc) with p = doc.New(pkg, ...).  go/doc (modelled, not verified) reads
+   the files of the package in SORTED file-name order and glues their package comments together:
+     text := comment.Text(); if r.doc == "" { r.doc = text } else { r.doc += "\n" + text }
+   toOneLine = strings.TrimSpace(strings.Replace(s, "\n", " ", -1)) (white space: the ASCII bytes). *)
+Definition nl : string := String (ascii_of_nat 10) EmptyString.
+
+Definition read_doc (acc : string) (f : file) : string :=
+  match f_doc f with
+  | None => acc
+  | Some text => if String.eqb acc "" then text else String.append acc (String.append nl text)
+  end.
+
+Definition package_doc (files : list file) : string :=
+  fold_left read_doc (sort_by f_name files) "".
+
+Definition is_space (c : ascii) : bool :=
+  let n := nat_of_ascii c in ((9 <=? n)%nat && (n <=? 13)%nat) || (n =? 32)%nat.
+
+Fixpoint nl_to_space (s : string) : string :=
+  match s with
+  | EmptyString => EmptyString
+  | String c r => String (if (nat_of_ascii c =? 10)%nat then ascii_of_nat 32 else c) (nl_to_space r)
+  end.
+
+Fixpoint ltrim (s : string) : string :=
+  match s with
+  | EmptyString => EmptyString
+  | String c r => if is_space c then ltrim r else s
+  end.
+
+Fixpoint rtrim (s : string) : string :=
+  match s with
+  | EmptyString => EmptyString
+  | String c r => let r' := rtrim r in
+                  if is_space c && String.eqb r' "" then EmptyString else String c r'
+  end.
+
+Definition to_one_line (s : string) : string := rtrim (ltrim (nl_to_space s)).
+
+Definition description (files : list file) : string := to_one_line (package_doc files).
 
 (* ---------------------------------------------------------------- setImports, first loop *)
 Definition visit_spec (acc : list (string * string) * list string) (s : ispec) :=
@@ -238,7 +283,8 @@ Definition template_data (env : string -> option (string * list pfunc)) (fixed :
   | Some imps =>
       let dflt := match in_default i with Some e => get_function e funcs imps | None => None end in
       let amap := set_aliases (in_aliases i) funcs imps in
-      Some {| td_funcs := sort_by target_name funcs;                       (* sort.Sort(info.Funcs) *)
+      Some {| td_desc := description (in_files i);                         (* Package(): toOneLine(p.Doc) *)
+              td_funcs := sort_by target_name funcs;                       (* sort.Sort(info.Funcs) *)
               td_default := dflt;
               td_aliases := sort_by fst (in_range_aliases i amap);        (* {{range $alias, $func := .Aliases}} *)
               td_imports := sort_by i_uname imps |}                        (* sort.Sort(info.Imports) *)
